@@ -10,6 +10,7 @@ structure DSt where
   resolveOn : Bool := true
   sanitizeOn : Bool := true
   dead : Option Str := none      -- set once the stream left the modelled domain
+  pendJ : List (Str × Str) := [] -- stage 4: what `resolve_uri` answered inside the NEXT start handler (`oracle J:uri|res …`)
 
 def encV : V → String
   | .s x => "s:" ++ encChars x
@@ -17,6 +18,7 @@ def encV : V → String
   | .t (some l) => "t:" ++ ",".intercalate (l.map toString)
   | .d kv => "d:(" ++ ",".intercalate ((kv.map fun (k, v) => encChars k ++ "=" ++ encChars v).toArray.qsort (· < ·)).toList ++ ")"
   | .nil => "t:-"
+  | .b x => if x then "b:1" else "b:0"
   | .l items => "l:[" ++ "|".intercalate (items.map fun kv => "(" ++ ",".intercalate ((kv.map fun (k, v) => encChars k ++ "=" ++ (match v with | some x => encChars x | none => "~")).toArray.qsort (· < ·)).toList ++ ")") ++ "]"
   | .det kv => "d:(" ++ ",".intercalate ((kv.map fun (k, v) => encChars k ++ "=" ++ (match v with | some x => encChars x | none => "~")).toArray.qsort (· < ·)).toList ++ ")"
 
@@ -66,8 +68,17 @@ def driverStep (d : DSt) (ws : List String) : DSt × String :=
     match decChars tag, dec r2, dec r1, attrs.mapM decKV with
     | some tag, some r2, some r1, some as =>
       if !asciiOnly tag || as.any (fun kv => !asciiOnly kv.1 || !asciiOnly kv.2) then ({ d with dead := some (S "non-ascii") }, "unmodelled " ++ enc "non-ascii") else
-      apply d { base := baseOps r2 r1, join := fun _ u => u, fix := id, loose := d.loose } (.start tag as)
+      let join (_b u : Str) : Str := match d.pendJ.find? (·.1 == u) with | some p => p.2 | none => S "<oracle-miss>"
+      apply { d with pendJ := [] } { base := baseOps r2 r1, join := join, fix := id, loose := d.loose } (.start tag as)
     | _, _, _, _ => (d, "bad-op")
+  | "oracle" :: fields =>
+    let tbl : List (Str × Str) := fields.filterMap fun f =>
+      if f.startsWith "J:" then
+        (match (f.drop 2).toString.splitOn "|" with
+         | [u, r] => (match decChars u, decChars r with | some u, some r => some (u, r) | _, _ => none)
+         | _ => none)
+      else none
+    ({ d with pendJ := tbl }, "ok")
   | "stop" :: tag :: joins0 =>
     -- optional trailing `D:<tuple|->`: what the real `_parse_date` answered for this element's text
     let dates := joins0.filter (·.startsWith "D:")
